@@ -208,7 +208,7 @@ fn rand_scenario(rng: &mut Rng, n: usize, allow_stop: bool) -> Vec<Visit> {
     for i in 0..k {
         let (kind, a, b) = rand_filter(rng, n);
         let stop: i64 = if allow_stop && rng.chance(1, 5) {
-            if rng.chance(1, 3) { -2 } else if rng.chance(1, 4) { 0 } else { rng.below(3 * n + 3) as i64 }
+            if rng.chance(1, 3) { -2 } else if rng.chance(1, 2) { 0 } else { rng.below(3 * n + 3) as i64 }
         } else { -1 };
         let reset = force_reset || (i > 0 && rng.chance(1, 3));
         vis.push(Visit { reset, roots: rand_roots(rng, n), kind, a, b, stop });
